@@ -28,13 +28,14 @@ type Frame struct {
 
 // Delivery is one frame scheduled for one handle.
 type Delivery struct {
-	Frame   *Frame
-	Handle  int
-	At      time.Time
-	seq     int
-	Read    bool
-	ReadAt  time.Time
-	Drained bool // removed by a filter installation (SetBPFAndDrain semantics)
+	Frame    *Frame
+	Handle   int
+	At       time.Time
+	seq      int
+	Read     bool
+	ReadAt   time.Time
+	ReadTick int64
+	Drained  bool // removed by a filter installation (SetBPFAndDrain semantics)
 	// Filtered is set when an installed (emulated) filter program rejected the frame.
 	Filtered    bool
 	FilterKnown bool
@@ -44,6 +45,7 @@ type Delivery struct {
 // Emission is one packet the code under test wrote to a Sink.
 type Emission struct {
 	Seq      int
+	Tick     int64
 	Handle   int
 	At       time.Time
 	Bytes    []byte
@@ -133,6 +135,7 @@ type Wire struct {
 	Deliveries []*Delivery
 	Frames     []*Frame
 	seq        int
+	tick       int64
 
 	// OnOpen is called when the code under test opens a handle (after fault injection).
 	OnOpen func(h *Handle)
@@ -249,7 +252,8 @@ func (s *simSink) WriteTo(buf []byte, addrPort netip.AddrPort) error {
 		w.mu.Unlock()
 		return f.Err
 	}
-	e := &Emission{Seq: len(w.Emissions), Handle: h.Idx, At: now, Bytes: append([]byte(nil), buf...), Dst: addrPort}
+	w.tick++
+	e := &Emission{Seq: len(w.Emissions), Tick: w.tick, Handle: h.Idx, At: now, Bytes: append([]byte(nil), buf...), Dst: addrPort}
 	e.Pkt, e.ParseErr = wirefmt.Parse(e.Bytes)
 	w.Emissions = append(w.Emissions, e)
 	h.Calls = append(h.Calls, Call{Op: "write", At: now, N: len(buf)})
@@ -414,7 +418,8 @@ func (s *simSource) Read(buf []byte) (int, error) {
 					continue
 				}
 			}
-			d.Read, d.ReadAt = true, now
+			w.tick++
+			d.Read, d.ReadAt, d.ReadTick = true, now, w.tick
 			n := copy(buf, d.Frame.Bytes)
 			h.Calls = append(h.Calls, Call{Op: "read", At: now, N: n})
 			w.mu.Unlock()
